@@ -1312,7 +1312,7 @@ fn ground_app(sig: &Sig, f: &FuncDecl, k: usize) -> String {
     }
 }
 
-pub const N_ENTRIES: usize = 72;
+pub const N_ENTRIES: usize = 74;
 
 /// The catalogue. `F` = a unary S->S constructor (always there), `R` = a relation (always there).
 pub fn entry(sig: &Sig, idx: usize) -> Entry {
@@ -1429,7 +1429,10 @@ pub fn entry(sig: &Sig, idx: usize) -> Entry {
         68 => e("sort-named-like-base-sort", "sort", vec![], s("(sort i64)"), vec![s("(sort ZS)"), s("(check (= 1 1))")]),
         69 => e("let-with-ill-typed-expr", "let", vec![], format!("(let $zg ({f} 1))"), vec![format!("(let $zg {fa})"), format!("(check (= $zg {fa}))")]),
         70 => e("global-used-as-function-name", "constructor", glob_setup.clone(), format!("(constructor $zg () {s0})"), vec![format!("(check (= $zg {a0}))"), format!("(constructor Zc2 () {s0})")]),
-        _ => e("delete-in-rule-unknown-function", "rule", vec![], format!("(rule ((= zx ({f} zy))) ((delete (Bogus zy))))"), vec![format!("(rule ((= zx ({f} zy))) ((delete ({f} zy))))")]),
+        71 => e("delete-in-rule-unknown-function", "rule", vec![], format!("(rule ((= zx ({f} zy))) ((delete (Bogus zy))))"), vec![format!("(rule ((= zx ({f} zy))) ((delete ({f} zy))))")]),
+        // re-binding an existing global with a value of ANOTHER sort: rejected (shadowing), and the global must keep its sort
+        72 => e("shadow-global-twice-other-sort", "let", glob_setup.clone(), s("(let $zg 1)"), vec![format!("(check (= $zg {a0}))"), s("(extract $zg)"), format!("(union $zg {a1})"), format!("(let $zh {a1})")]),
+        _ => e("shadow-primitive-global-other-sort", "let", vec![s("(let $zi 1)")], s("(let $zi \"one\")"), vec![s("(extract $zi)"), s("(check (= $zi 1))"), s("(let $zj (+ $zi 1))")]),
     }
 }
 
